@@ -34,6 +34,11 @@ func (s Script) endErr() error {
 	switch s.End {
 	case "unexpected":
 		return io.ErrUnexpectedEOF
+	case "wrapped-eof":
+		// a layer between the library and the wire (a proxying RoundTripper, a
+		// decorating body) that reports the premature end with an error of its
+		// own wrapping io.EOF: not io.EOF itself, so io.ReadFull passes it on
+		return fmt.Errorf("upstream closed the connection: %w", io.EOF)
 	case "transport":
 		return ErrTransport
 	}
